@@ -187,7 +187,10 @@ func runWorker(scs []*Scenario, base uint64, from, step int, tc tierCfg, wantHas
 		sc, cell := pickScenario(scs, i)
 		// progress marker: if the process dies inside this run (unrecoverable runtime error in
 		// the code under test), the master attributes the death to it
-		os.WriteFile(filepath.Join(scratch, fmt.Sprintf("prog-%d.txt", from%step)), []byte(fmt.Sprintf("%d %d %s %d", i, seedOf(base, i), sc.Name, cell)), 0644)
+		progTmp := filepath.Join(scratch, fmt.Sprintf("prog-%d.tmp", from%step))
+		if os.WriteFile(progTmp, []byte(fmt.Sprintf("%d %d %s %d", i, seedOf(base, i), sc.Name, cell)), 0644) == nil {
+			os.Rename(progTmp, filepath.Join(scratch, fmt.Sprintf("prog-%d.txt", from%step))) // atomic: a death never leaves a torn marker
+		}
 		rep := runOne(sc, seedOf(base, i), nil, false, cell)
 		sum.Runs++
 		sum.Steps += rep.Steps
@@ -233,6 +236,14 @@ func runWorker(scs []*Scenario, base uint64, from, step int, tc tierCfg, wantHas
 			if seen && len(sum.Viols) < 40 {
 				rep.Sample = nil
 				sum.Viols = append(sum.Viols, rep)
+				// also persist it at once: if the code under test later kills this process the
+				// summary is lost, the finding must not be
+				if js, err := json.Marshal(rep); err == nil {
+					if f, err := os.OpenFile(filepath.Join(scratch, fmt.Sprintf("viol-%d.jsonl", from%step)), os.O_APPEND|os.O_CREATE|os.O_WRONLY, 0644); err == nil {
+						f.Write(append(js, '\n'))
+						f.Close()
+					}
+				}
 			}
 		}
 	}
@@ -373,11 +384,15 @@ func spawnWorkers(prop, tier string, seed uint64, workers int, tc tierCfg, scrat
 				if err != nil {
 					es := eb.String()
 					death := ""
-					for _, marker := range []string{"fatal error: out of memory", "fatal error: runtime: out of memory", "cannot allocate memory", "fatal error: concurrent map", "fatal error: stack overflow", "goroutine stack exceeds", "signal: killed"} {
+					// unrecoverable runtime failures of the process while it executes code under test
+					for _, marker := range []string{"fatal error: out of memory", "fatal error: runtime: out of memory", "cannot allocate memory", "pthread_create failed", "fatal error: concurrent map", "fatal error: stack overflow", "goroutine stack exceeds", "fatal error: ", "SIGABRT", "signal: killed", "signal: aborted"} {
 						if strings.Contains(es, marker) || strings.Contains(err.Error(), marker) {
 							death = marker
 							break
 						}
+					}
+					if strings.Contains(es, "simrt watchdog") || strings.Contains(es, "machinery error") || strings.Contains(es, "all goroutines are asleep") {
+						death = "" // the simulator's own trouble, never a verdict
 					}
 					pb, perr := os.ReadFile(filepath.Join(scratch, fmt.Sprintf("prog-%d.txt", k)))
 					var pi, pcell int
@@ -386,13 +401,41 @@ func spawnWorkers(prop, tier string, seed uint64, workers int, tc tierCfg, scrat
 					if perr == nil {
 						fmt.Sscanf(string(pb), "%d %d %s %d", &pi, &pseed, &pscen, &pcell)
 					}
-					if death == "" || perr != nil || attempt >= 60 {
-						errs[k] = fmt.Errorf("worker %d: %v\nstdout tail: %s\nstderr head: %s\nstderr tail: %s", k, err, tail(out.String(), 2000), head(es, 3000), tail(es, 3000))
+					if death != "" && perr == nil && attempt >= 20 && acc != nil {
+						// the code under test keeps killing the worker: enough evidence, stop exploring in this slot
+						sums[k] = acc
+						return
+					}
+					if death != "" && perr == nil && pseed == 0 {
+						perr = fmt.Errorf("unreadable progress marker %q", string(pb))
+					}
+					if death == "" || perr != nil {
+						errs[k] = fmt.Errorf("worker %d (attempt %d, from %d): %v [death=%q progress=%q perr=%v]\nstdout tail: %s\nstderr head: %s\nstderr tail: %s", k, attempt, from, err, death, string(pb), perr, tail(out.String(), 2000), head(es, 3000), tail(es, 3000))
 						return
 					}
 					// the code under test killed the process: that is a violation of the run in progress
 					if acc == nil {
 						acc = &workerSummary{Faults: map[string]int{}, Probes: map[string]int{}, Policies: map[string]int{}, Scenarios: map[string]int{}, ViolCount: map[string]int{}}
+					}
+					// findings the dead incarnation had persisted
+					if vb, err := os.ReadFile(filepath.Join(scratch, fmt.Sprintf("viol-%d.jsonl", k))); err == nil {
+						for _, ln := range strings.Split(strings.TrimSpace(string(vb)), "\n") {
+							rr := &RunReport{}
+							if ln != "" && json.Unmarshal([]byte(ln), rr) == nil && len(rr.Viols) > 0 {
+								dup := false
+								for _, have := range acc.Viols {
+									if have.Seed == rr.Seed && have.Viols[0].Sig == rr.Viols[0].Sig {
+										dup = true
+									}
+								}
+								if !dup {
+									acc.Viols = append(acc.Viols, rr)
+									for _, v := range rr.Viols {
+										acc.ViolCount[v.Sig]++
+									}
+								}
+							}
+						}
 					}
 					sig := "process-death:" + pscen
 					acc.ViolCount[sig]++
@@ -549,8 +592,8 @@ func runMaster(prop, tier string, seed uint64, workers int, tc tierCfg, evidence
 					knownSeen[v.Sig] = true
 					fmt.Printf("KNOWN-FINDING: property=%s %s [%s] (seen %d times this run)\n", v.Property, k.What, v.Sig, agg.ViolCount[v.Sig])
 				}
-			} else if !unknownSig[v.Sig] {
-				unknownSig[v.Sig] = true
+			} else if !unknownSig[sigClass(v.Sig)] {
+				unknownSig[sigClass(v.Sig)] = true
 				rr := *r
 				rr.Viols = []*Violation{v}
 				unknown = append(unknown, &rr)
@@ -574,19 +617,35 @@ func runMaster(prop, tier string, seed uint64, workers int, tc tierCfg, evidence
 	if len(unknown) > 0 {
 		os.MkdirAll(replays, 0755)
 		max := 3 // minimise and report up to three distinct new violations
-		for i, r := range unknown {
-			if i >= max {
+		// synchronous violations first; a process death is attributed to the run that was in
+		// progress, which can be wrong when the runtime dies asynchronously (e.g. a thread
+		// cannot be created after an earlier run filled the address space)
+		sort.SliceStable(unknown, func(i, j int) bool { return !unknown[i].Gen && unknown[j].Gen })
+		unattributed := 0
+		reported := 0
+		for _, r := range unknown {
+			if reported >= max {
 				fmt.Printf("(further distinct violation not minimised: %s)\n", r.Viols[0].Sig)
 				continue
 			}
 			path, rc := minimiseAndWrite(prop, r, replays, scratch)
+			if rc == 3 {
+				unattributed++
+				fmt.Printf("WARNING: a worker process died (%s) but the run in progress (seed %d) does not die when replayed alone; not reported as such\n", r.Viols[0].Sig, r.Seed)
+				continue
+			}
 			if rc == 2 {
 				return 2
 			}
+			reported++
 			replayPaths = append(replayPaths, path)
 			fmt.Printf("VIOLATION property=%s replay=%s\n", prop, path)
 			fmt.Printf("  oracle=%s sig=%s\n  %s\n", r.Viols[0].Oracle, r.Viols[0].Sig, firstLines(r.Viols[0].Msg, 12))
 			exit = 1
+		}
+		if unattributed > 0 && exit == 0 {
+			fmt.Fprintln(os.Stderr, "simrun: machinery error: worker processes died but no death could be attributed to a replayable run and no other violation was found")
+			return 2
 		}
 	}
 
@@ -802,9 +861,32 @@ func replayInFresh(prop, scen string, cell int, seed uint64, tape *simrt.Tape, s
 	return rep, nil
 }
 
+// sigClass maps a signature to the class that must persist while minimising and when a
+// replay is verified. For data races the reporting entry points ("via ...") are dropped:
+// which of several racing callers ThreadSanitizer names first is not fully deterministic
+// (its shadow cells evict pseudo-randomly), the racing pair of accesses is.
+func sigClass(sig string) string {
+	if !strings.HasPrefix(sig, "race:") {
+		return sig
+	}
+	parts := strings.Split(strings.TrimPrefix(sig, "race:"), "|")
+	for i := range parts {
+		if j := strings.Index(parts[i], " via "); j >= 0 {
+			parts[i] = parts[i][:j]
+		}
+	}
+	sort.Strings(parts)
+	return "race:" + strings.Join(parts, "|")
+}
+
 func hasSig(rep *RunReport, sig string) *Violation {
 	for _, v := range rep.Viols {
 		if v.Sig == sig {
+			return v
+		}
+	}
+	for _, v := range rep.Viols {
+		if sigClass(v.Sig) == sigClass(sig) {
 			return v
 		}
 	}
@@ -831,9 +913,9 @@ func minimiseAndWrite(prop string, r *RunReport, replays, scratch string) (strin
 		var eb bytes.Buffer
 		cmd.Stderr = &eb
 		err := cmd.Run()
-		if err == nil || !strings.Contains(eb.String(), "fatal error") {
-			fmt.Fprintf(os.Stderr, "simrun: machinery error: process death of seed %d did not reproduce in a fresh process (%v)\n", r.Seed, err)
-			return "", 2
+		if err == nil || !(strings.Contains(eb.String(), "fatal error") || strings.Contains(eb.String(), "SIGABRT")) {
+			os.Remove(path)
+			return "", 3 // asynchronous death: not attributable to this run alone
 		}
 		return path, 1
 	}
@@ -978,6 +1060,9 @@ func minimiseAndWrite(prop string, r *RunReport, replays, scratch string) (strin
 		return "", 2
 	}
 	final, err := replayInFresh(prop, r.Scenario, r.Cell, r.Seed, &best, scratch, id+1)
+	for try := 0; try < 2 && err == nil && hasSig(final, sig) == nil && strings.HasPrefix(sig, "race:"); try++ {
+		final, err = replayInFresh(prop, r.Scenario, r.Cell, r.Seed, &best, scratch, id+2+try)
+	}
 	if err != nil || hasSig(final, sig) == nil {
 		fmt.Fprintf(os.Stderr, "simrun: machinery error: minimised replay %s does not reproduce %q in a fresh process (%v)\n", path, sig, err)
 		return "", 2
